@@ -5,9 +5,9 @@ CONSTANTS
   MCoff = 1
   MCwin = 1
   MCcw = 1
-  MCpk = 2
+  MCpk = 1
   MCbk = 1
-  MCdup = 0
+  MCdup = 1
   MCack = FALSE
 INVARIANTS CreditRespected ReadPrefix FinalSizeConsistent
 PROPERTIES NoStreamAfterReset AdvertisedMonotone
